@@ -17,6 +17,8 @@ use tower_resilience_coalesce::{CoalesceError, CoalesceLayer};
 #[derive(Clone, Debug, Serialize, Deserialize, PartialEq)]
 pub struct Caller {
     pub start_ms: u64,
+    /// key % 100 is what the key extractor sees; key / 100 selects one of two services built
+    /// from the one layer (they must not coalesce with each other)
     pub key: u32,
     pub beh: Behaviour,
     pub cancel: CancelSpec,
@@ -42,6 +44,7 @@ pub fn gen(rng: &mut Rng) -> Scn {
     let n = rng.range(2, 10) as usize;
     let nkeys = rng.range(1, 3) as u32;
     let faulty = rng.chance(2, 3);
+    let two_services = rng.chance(1, 4);
     let mut callers = vec![];
     for _ in 0..n {
         let start_ms = *rng.pick(&[0u64, 0, 0, 1, 5, 5, 10, 10, 15, 20, 20, 30, 40, 50]);
@@ -52,7 +55,7 @@ pub fn gen(rng: &mut Rng) -> Scn {
         };
         callers.push(Caller {
             start_ms,
-            key: rng.range(1, nkeys as u64) as u32,
+            key: rng.range(1, nkeys as u64) as u32 + if two_services && rng.chance(1, 2) { 100 } else { 0 },
             beh,
             cancel: if faulty { gen_cancel(rng, start_ms, 25) } else { CancelSpec::Never },
             hold_ms: if faulty && rng.chance(1, 6) { *rng.pick(&[5u64, 10, 25, 40]) } else { 0 },
@@ -62,16 +65,17 @@ pub fn gen(rng: &mut Rng) -> Scn {
     Scn {
         callers,
         knobs: SchedKnobs::gen(rng, faulty, 60),
-        owner_dropped: rng.chance(1, 5),
+        owner_dropped: !two_services && rng.chance(1, 5),
     }
 }
 
 pub fn valid(s: &Scn) -> bool {
     s.callers.len() >= 1
         && s.callers.len() <= 12
-        && s.callers.iter().all(|c| c.start_ms <= 300 && c.key >= 1 && c.key <= 4 && c.beh.lat_ms <= 200 && c.beh.yields <= 4 && c.hold_ms <= 100 && c.drop_unpolled_after_ms.map(|d| d <= 50).unwrap_or(true))
+        && s.callers.iter().all(|c| c.start_ms <= 300 && c.key % 100 >= 1 && c.key % 100 <= 4 && c.key / 100 <= 1 && c.beh.lat_ms <= 200 && c.beh.yields <= 4 && c.hold_ms <= 100 && c.drop_unpolled_after_ms.map(|d| d <= 50).unwrap_or(true))
         && s.knobs.jumps.len() <= 3
         && s.knobs.jumps.iter().all(|j| j.0 <= 300 && j.1 <= 200)
+        && !(s.owner_dropped && s.callers.iter().any(|c| c.key >= 100))
 }
 
 /// Key with a deliberately coarse `Hash` (all keys collide) and an exact `Eq`: legal, and an
@@ -92,18 +96,19 @@ pub fn run(s: &Scn, ctx: &mut RunCtx) -> RunOutput {
     let setup = move || {
         world::with(|w| {
             for (i, c) in scn.callers.iter().enumerate() {
-                w.script.by_req.insert((0, i as u32), vec![c.beh]);
+                w.script.by_req.insert(((c.key / 100) as u8, i as u32), vec![c.beh]);
             }
         });
-        let layer = CoalesceLayer::new(|r: &Req| CKey(r.key));
+        let layer = CoalesceLayer::new(|r: &Req| CKey(r.key % 100));
         let base = layer.layer(SimInner::new(0));
+        let base_b = layer.layer(SimInner::new(1));
         let owner = std::rc::Rc::new(std::cell::RefCell::new(Some(base.clone())));
         let lazy = scn.owner_dropped;
         let taken = std::rc::Rc::new(std::cell::Cell::new(0usize));
         let n_callers = scn.callers.len();
         let mut defs = vec![];
         for (i, c) in scn.callers.iter().enumerate() {
-            let mut early = if lazy { None } else { Some(base.clone()) };
+            let mut early = if lazy { None } else { Some(if c.key / 100 == 1 { base_b.clone() } else { base.clone() }) };
             let owner = owner.clone();
             let taken = taken.clone();
             let req = Req { id: i as u32, key: c.key };
@@ -158,6 +163,7 @@ pub fn run(s: &Scn, ctx: &mut RunCtx) -> RunOutput {
             defs.push(TaskDef { start_ms: c.start_ms, make, cancel: c.cancel.to_cancel() });
         }
         drop(base);
+        drop(base_b);
         defs
     };
     let mut step = |_k| {
